@@ -7,6 +7,9 @@ KA_quick == {<<"RDMs", "RDMs", "Dataset">>, <<"Dataset", "TemporalDataset", "Res
 KA_all == KA_quick \cup
           {<<"TemporalDataset", "TemporalDataset", "RDMs">>, <<"Result", "Result", "Dataset">>,
            <<"ModelWeighted", "ModelSelect", "ModelFixed">>, <<"ModelInterpolate", "Dataset", "Dataset">>}
+FsOps == {"fs"}
+StreamOps == {"stream"}
+AllOps == {"fs", "stream"}
 AllModes == {"path", "pathlib", "fresh", "kept"}
 NoKept == {"path", "pathlib", "fresh"}
 Names == {"path", "pathlib"}
